@@ -416,6 +416,7 @@ func (e *lcEnv) isAncestor(k int, op wire.OutPoint) bool {
 // ------------------------------------------------------------------ executing ops
 
 type lcRunner struct {
+	knownHit map[string]bool
 	r    *Run
 	e    *lcEnv
 	hist []string
@@ -1142,6 +1143,22 @@ func (x *lcRunner) fail(what, key string) {
 			key = "C08/complete-without-rewatch"
 		}
 	}
+	if key == "C08/expired-early-extension" {
+		// an open known finding without consequences for the rest of the history: record it
+		// once and keep checking
+		if !x.knownHit[key] {
+			if x.knownHit == nil {
+				x.knownHit = map[string]bool{}
+			}
+			x.knownHit[key] = true
+			x.r.Count("viol/" + key)
+			if lcSeenViol[key] < 2 {
+				lcSeenViol[key]++
+				x.r.Violate(what, key, map[string]interface{}{"ops": x.ops, "trace": append([]string(nil), x.hist...)})
+			}
+		}
+		return
+	}
 	if x.bad == "" {
 		x.bad, x.key = what, key
 	}
@@ -1478,6 +1495,10 @@ func (x *lcRunner) gen0() lcOp {
 			// the chain reaches the expiry height the watcher still tracks (the
 			// account's expiry was extended in the meantime)
 			return lcOp{Op: "block", A: int64(x) - int64(e.height) + int64(rng.Intn(2))}
+		}
+		if a.State == account.StatePendingBatch && len(staged) == 0 && rng.Intn(3) == 0 {
+			// the next batch arrives before the previous batch transaction confirmed
+			return stageOp()
 		}
 		switch q := rng.Intn(10); {
 		case q < 2 && int64(a.Expiry) > int64(e.height):
